@@ -255,11 +255,11 @@ C05_MinRate(cfg, t) ==
 C05_WorkBound(cfg, opts) ==
   SumOver({ t \in Tasks(cfg) : ~DoneByDefault(cfg, t) },
           LAMBDA t: IF InitRem(cfg, t) > 0 /\ (cfg.tasks[t].auto \/ \E w \in Workers(cfg): EligibleW(cfg, w, t))
-                    THEN (InitRem(cfg, t) + C05_MinRate(cfg, t) - 1) \div C05_MinRate(cfg, t) + 2
-                    ELSE 2)
+                    THEN (InitRem(cfg, t) + C05_MinRate(cfg, t) - 1) \div C05_MinRate(cfg, t) + 1
+                    ELSE 1)
   + Len(opts.absL)
   + SumOver(Workers(cfg), LAMBDA w: Len(cfg.workers[w].abs))
-  + Len(cfg.tasks) + 2
+  + 2
 C05_Hopeless(cfg) ==
   \E t \in Tasks(cfg): C05_Needs(cfg, t) /\ ~\E w \in Workers(cfg): EligibleW(cfg, w, t)
 \* at the end of a run: s = final state, ret = how simulate() ended
